@@ -1673,6 +1673,16 @@ def _custom_nanquantile(
     weights=None,
     **kwargs,
 ):
+    if a.size == 0 and builtins.all(a.shape[ax] > 0 for ax in axis):
+        # an empty block (zero-size chunk on a kept axis): np.nanquantile
+        # itself fails on empty input for vector-valued q
+        kept = [
+            1 if i in axis else n
+            for i, n in enumerate(a.shape)
+            if keepdims or i not in axis
+        ]
+        dtype = np.nanquantile(np.ones(1, dtype=a.dtype), 0.5).dtype
+        return np.empty(tuple(np.shape(q)) + tuple(kept), dtype=dtype)
     if (
         method != "linear"
         or len(axis) != 1
